@@ -25,7 +25,7 @@ path relative to the directory, so these override nothing and the built-in templ
 top-level templates (there a nested <Type>.j2 may well be the one picked for a type: the oracle does not care who wins,
 only that whatever influences the output is named).
 
-On top of both: the *directory location family* (256 configurations): WHERE the user directories (--templates,
+On top of both: the *directory location family* (223 configurations): WHERE the user directories (--templates,
 --support-templates, --lookup-dir, the root namespace) live and HOW they are written on the command line
     relative placement of the two template folders {siblings, same folder, support below templates, templates below
       support} x language x --generate-support                                                   (tpl = user+support)
